@@ -6,6 +6,7 @@ package main
 
 import (
 	"fmt"
+	"reflect"
 	"strings"
 
 	"github.com/mithrandie/csvq/lib/parser"
@@ -21,6 +22,10 @@ var selKeywords = map[string]bool{"SELECT": true, "DISTINCT": true, "FROM": true
 
 // query level (op c18.qry): set operators, parenthesised queries as their operands, WITH, FOR UPDATE
 var qryMode bool
+
+// sub-queries as values / tables are admitted (op c18.nq; implies qryMode); back-quoted identifiers are not (their atom
+// codes are the sub-query atoms of Model/SubQuery.lean)
+var nqMode bool
 var qryKeywords = map[string]bool{"UNION": true, "EXCEPT": true, "INTERSECT": true, "ALL": true, "RECURSIVE": true, "FOR": true, "UPDATE": true}
 
 // operandStart: a "(" at position i of raw (followed by SELECT or by another such "(") stands where a set operand or the
@@ -59,6 +64,9 @@ func selWords(text string, names map[string]string) (ws []string, ok bool) {
 		case t.Token == tokEOF:
 		case tokenWord(t) != "":
 			// a string literal / back-quoted identifier: the word carries its content byte for byte
+			if nqMode && tokenWord(t)[0] == '`' {
+				return nil, false
+			}
 			raw = append(raw, tokenWord(t))
 		case t.Token == parser.IDENTIFIER && !t.Quoted && isIdentWord(strings.ToLower(t.Literal)) && t.Literal == strings.ToLower(t.Literal):
 			raw = append(raw, t.Literal)
@@ -95,11 +103,11 @@ func selWords(text string, names map[string]string) (ws []string, ok bool) {
 		case isIdentWord(w) && i+2 < len(raw) && raw[i+1] == "." && isIdentWord(raw[i+2]):
 			ws = append(ws, w+"."+raw[i+2])
 			i += 2
-		case isIdentWord(w) && i+1 < len(raw) && raw[i+1] == "(" && !(qryMode && i > 0 && (raw[i-1] == "WITH" || raw[i-1] == "RECURSIVE" || raw[i-1] == ",")):
+		case isIdentWord(w) && i+1 < len(raw) && raw[i+1] == "(" && !(qryMode && i > 0 && (raw[i-1] == "WITH" || raw[i-1] == "RECURSIVE" || raw[i-1] == ",")) && !(nqMode && i+2 < len(raw) && raw[i+2] == "SELECT"):
 			return nil, false // function call
 		case w == "." && !(i+1 < len(raw) && raw[i+1] == "*" && i > 0 && isIdentWord(raw[i-1])):
 			return nil, false // t.1, stray dots
-		case w == "(" && i+1 < len(raw) && raw[i+1] == "SELECT" && !(qryMode && operandStart(raw, i)):
+		case w == "(" && i+1 < len(raw) && raw[i+1] == "SELECT" && !(qryMode && operandStart(raw, i)) && !nqMode:
 			return nil, false // sub-select
 		case w == "WITH" && !(i+1 < len(raw) && raw[i+1] == "TIES") && !qryMode:
 			return nil, false // common table expression
@@ -144,6 +152,9 @@ func selImpl(text string, names map[string]string) string {
 	sq, ok := r.stmts[0].(parser.SelectQuery)
 	if !ok {
 		return "ERR"
+	}
+	if rowValueOutsideIn(reflect.ValueOf(sq)) {
+		return "OUTSIDE" // a row comparison (a, b) = (c, d): row values are outside the token model
 	}
 	printed, pn := safeString(sq)
 	if pn != nil {
